@@ -91,7 +91,7 @@ impl Prop for C15 {
         let sign = pick_feed_sign(r, std::slice::from_ref(&tree));
         let shape = shape.unwrap_or_else(|| r.below(SHAPES.len()) as u8);
         // magnitudes {0} u [1e-3, 1e6]
-        let scale = *r.pick(SCALES) / 4.25;
+        let scale = crate::feed::pick_scale(r, !tree.needs_positive_feed() && !tree.contains(K::Mul));
         let len = if r.chance(0.003) {
             // some panics need a long stream (a counter reaching a threshold, drift of running sums)
             crate::feed::long_len(r)
